@@ -189,6 +189,7 @@ const OP_EXT1: u32 = 19; // extend([next, next'])
 const OP_EXT2: u32 = 20; // extend([last, last])
 const OP_EXT3: u32 = 21; // extend([u32::MAX+1, 0])
 const OP_SERDE: u32 = 22;
+const OP_EXT4: u32 = 24; // extend([next two multiples of the stride prefix]) (continues a broken stride)
 /// push(2^30): used by script 2 only, not part of the BFS alphabet
 const R_2P30: u32 = 23;
 
@@ -283,6 +284,11 @@ impl<C: IdxSubject> IdxMachine<C> {
                 vec![l, l]
             }
             OP_EXT3 => vec![u32::MAX as usize + 1, 0],
+            OP_EXT4 => {
+                let a = self.value_of(R_NEXT_PREFIX);
+                let s = self.seq.get(1).copied().unwrap_or(3);
+                vec![a, a.saturating_add(s)]
+            }
             _ => unreachable!(),
         }
     }
@@ -426,7 +432,7 @@ impl<C: IdxSubject> Machine for IdxMachine<C> {
         let mut v: Vec<OpId> = (0..N_PUSH).collect();
         v.push(OP_CLEAR);
         if !C::IS_STRIDE {
-            v.extend([OP_RESERVE, OP_EXT0, OP_EXT1, OP_EXT2, OP_EXT3]);
+            v.extend([OP_RESERVE, OP_EXT0, OP_EXT1, OP_EXT2, OP_EXT3, OP_EXT4]);
         }
         if self.oracle == IdxOracle::Serde {
             v.push(OP_SERDE);
